@@ -53,6 +53,11 @@ def duration_ticks(dur, clk):
     return None
 
 
+def rst_domain(active_low):
+    """physical values of the reset input, the inactive level first"""
+    return (1, 0) if active_low else (0, 1)
+
+
 def product_menu(names, domains, pred=None):
     out = []
     for vals in itertools.product(*[domains[n] for n in names]):
@@ -99,12 +104,15 @@ class WaitModel:
     polled starting with the following clock; marks / branches take no time; `wait n` reached in clock t
     resumes in clock t+n (n = 0: continues in clock t); a run-time n is the value of the input in clock t."""
 
-    def __init__(self, prog, nmarks, n_values=None, has_sel=False):
+    def __init__(self, prog, nmarks, n_values=None, has_sel=False, has_rst=False, rst_active_low=False):
         self.ops = flatten_prog(prog)
         assert self.ops[0][0] == "await"
         self.nmarks = nmarks
-        self.input_names = ["start"] + (["n"] if n_values is not None else []) + (["sel"] if has_sel else [])
-        dom = {"start": (0, 1), "n": tuple(n_values or ()), "sel": (0, 1)}
+        self.has_rst = has_rst
+        self.rst_on = 0 if rst_active_low else 1
+        self.input_names = ["start"] + (["n"] if n_values is not None else []) + (["sel"] if has_sel else []) + \
+            (["rst"] if has_rst else [])
+        dom = {"start": (0, 1), "n": tuple(n_values or ()), "sel": (0, 1), "rst": rst_domain(rst_active_low)}
         self.menu = product_menu(self.input_names, dom)
         self.outputs = [f"m{i}" for i in range(nmarks)]
         self._idx = {n: i for i, n in enumerate(self.input_names)}
@@ -116,6 +124,10 @@ class WaitModel:
         pc, cnt = st
         ops = self.ops
         pulses = [0] * self.nmarks
+        if self.has_rst and inp[self._idx["rst"]] == self.rst_on:
+            # reset of the context: the coroutine starts again with its first action in the first clock after
+            # the reset; pushed marker pulses are back at their default
+            return [((0, 0), tuple(pulses))]
         if cnt > 0:
             cnt -= 1
             if cnt > 0:
@@ -199,13 +211,14 @@ class CounterModel:
     count the docs say nothing -> any next value is accepted.  on_change receives the new value (observed on
     `onext`, not constrained in reset clocks).  A reset of the context sets the counter to 0."""
 
-    def __init__(self, limit, limit_values=None, has_rst=False, maxval=15):
+    def __init__(self, limit, limit_values=None, has_rst=False, maxval=15, rst_active_low=False):
         self.limit = limit
         self.rt = limit_values is not None
         self.has_rst = has_rst
+        self.rst_on = 0 if rst_active_low else 1
         self.maxval = maxval
         self.input_names = (["lim"] if self.rt else []) + (["rst"] if has_rst else [])
-        self.menu = product_menu(self.input_names, {"lim": tuple(limit_values or ()), "rst": (0, 1)})
+        self.menu = product_menu(self.input_names, {"lim": tuple(limit_values or ()), "rst": rst_domain(rst_active_low)})
         self.outputs = ["cnt", "onext"]
         self._idx = {n: i for i, n in enumerate(self.input_names)}
 
@@ -214,7 +227,7 @@ class CounterModel:
 
     def step(self, st, inp):
         cnt, onext = st
-        if self.has_rst and inp[self._idx["rst"]]:
+        if self.has_rst and inp[self._idx["rst"]] == self.rst_on:
             return [((0, None), (0, None))]
         lim = inp[self._idx["lim"]] if self.rt else self.limit
         if cnt == lim:
@@ -234,7 +247,9 @@ class _EnableMixin:
        style "sig" : the reset signal is driven concurrently from input `dis` -> disabled in tick t iff dis(t);
        style "call": a clocked process calls enable()/disable() depending on input `en` -> the reset signal takes
                      the new value after that tick, i.e. disabled in tick t iff not en(t-1)
-                     (before the first tick: the require_enable option)."""
+                     (before the first tick: the require_enable option).
+       With an asynchronous context reset the derived context (`or_reset` inherits is_async) is reset as soon as
+       the reset signal rises: a disable() issued in tick t already shows the reset state after tick t."""
 
     def _enable_inputs(self):
         return {"none": [], "sig": ["dis"], "call": ["en"]}[self.style]
@@ -246,6 +261,10 @@ class _EnableMixin:
         if self.style == "sig":
             return bool(inp[self._idx["dis"]]), pend
         return bool(pend), (0 if inp[self._idx["en"]] else 1)
+
+    def _async_disabled_after(self, pend):
+        """reset signal high after this tick and the derived context is asynchronous"""
+        return self.style == "call" and self.async_rst and bool(pend)
 
 
 # ---------------------------------------------------------------------------------------------
@@ -262,8 +281,10 @@ class ToggleModel(_EnableMixin):
     ("as if it had been reset") are admitted as initial counter values."""
 
     def __init__(self, first, second, first_values=None, second_values=None, default_state=0, first_state=0,
-                 require_enable=False, style="none", ctx_rst=False):
+                 require_enable=False, style="none", ctx_rst=False, rst_active_low=False, async_rst=False):
         self.first, self.second = first, second
+        self.async_rst = async_rst
+        self.rst_on = 0 if rst_active_low else 1
         self.rt1 = first_values is not None
         self.rt2 = second_values is not None
         self.default = int(default_state)
@@ -274,7 +295,7 @@ class ToggleModel(_EnableMixin):
         self.input_names = (["first"] if self.rt1 else []) + (["second"] if self.rt2 else []) + \
             self._enable_inputs() + (["rst"] if ctx_rst else [])
         dom = {"first": tuple(first_values or ()), "second": tuple(second_values or ()), "dis": (0, 1), "en": (0, 1),
-               "rst": (0, 1)}
+               "rst": rst_domain(rst_active_low)}
         self._idx = {n: i for i, n in enumerate(self.input_names)}
 
         def ok(v):
@@ -292,11 +313,11 @@ class ToggleModel(_EnableMixin):
     def step(self, st, inp):
         cnt, state, pend = st
         disabled, pend = self._disabled(pend, inp)
-        ctx_reset = self.ctx_rst and inp[self._idx["rst"]]
-        if ctx_reset:
-            # reset of the whole context: toggle is reset too; the enable bookkeeping of the wrapper process
-            # is not constrained here (C04's business) -> such configurations only use style none/sig
-            return [((0, self.default, pend), (self.default, 0, 0, 0, 0))]
+        if self.ctx_rst and inp[self._idx["rst"]] == self.rst_on:
+            # reset of the parent context: the toggle runs in `ctx.or_reset(reset_signal)`, so a context reset
+            # acts exactly like a disabled tick (ToggleMock's reset branch); the wrapper's enable()/disable()
+            # process has no reset and keeps tracking `en`
+            disabled = True
         if disabled:
             return [((0, self.default, pend), (self.default, 0, 0, 0, 0))]
         first = inp[self._idx["first"]] if self.rt1 else self.first
@@ -305,6 +326,8 @@ class ToggleModel(_EnableMixin):
         new = self.first_state if cnt < first else 1 - self.first_state
         rising = int(state == 0 and new == 1)
         falling = int(state == 1 and new == 0)
+        if self._async_disabled_after(pend):
+            return [((0, self.default, pend), (self.default, 0, 0, 0, 0))]
         return [((cnt, new, pend), (new, rising, falling, rising, falling))]
 
 
@@ -325,16 +348,20 @@ class DividerModel(_EnableMixin):
     phase is open until the next disabled tick (only the pulse/state consistency is still required)."""
 
     def __init__(self, duration, duration_values=None, default_state=0, tick_at_start=False, require_enable=False,
-                 style="none"):
+                 style="none", ctx_rst=False, rst_active_low=False, async_rst=False):
         self.duration = duration
+        self.async_rst = async_rst
+        self.ctx_rst = ctx_rst
+        self.rst_on = 0 if rst_active_low else 1
         self.rt = duration_values is not None
         self.default = int(default_state)
         self.tick_at_start = tick_at_start
         self.require_enable = require_enable
         self.style = style
-        self.input_names = (["dur"] if self.rt else []) + self._enable_inputs()
+        self.input_names = (["dur"] if self.rt else []) + self._enable_inputs() + (["rst"] if ctx_rst else [])
         self._idx = {n: i for i, n in enumerate(self.input_names)}
-        self.menu = product_menu(self.input_names, {"dur": tuple(duration_values or ()), "dis": (0, 1), "en": (0, 1)})
+        self.menu = product_menu(self.input_names, {"dur": tuple(duration_values or ()), "dis": (0, 1), "en": (0, 1),
+                                                    "rst": rst_domain(rst_active_low)})
         self.outputs = ["state", "rising", "falling", "cb_r", "cb_f"]
 
     def init(self):
@@ -345,7 +372,11 @@ class DividerModel(_EnableMixin):
     def step(self, st, inp):
         k, dl, prev, pend = st
         disabled, pend = self._disabled(pend, inp)
+        if self.ctx_rst and inp[self._idx["rst"]] == self.rst_on:
+            disabled = True  # reset of the parent context == disabled tick (or_reset)
         if disabled:
+            return [((0, None, self.default, pend), (self.default, 0, 0, 0, 0))]
+        if self._async_disabled_after(pend):
             return [((0, None, self.default, pend), (self.default, 0, 0, 0, 0))]
         d = inp[self._idx["dur"]] if self.rt else self.duration
         if k == UNKNOWN or (dl is not None and d != dl):
@@ -370,12 +401,13 @@ class DebounceModel:
     the period, counter incremented (saturating); input low: output becomes 0 when the counter is at 0, counter
     decremented (saturating).  Reset of the context: counter = period//2, output = initial."""
 
-    def __init__(self, period, initial=0, has_rst=False):
+    def __init__(self, period, initial=0, has_rst=False, rst_active_low=False):
         self.period = period
+        self.rst_on = 0 if rst_active_low else 1
         self.initial = int(initial)
         self.has_rst = has_rst
         self.input_names = ["inp"] + (["rst"] if has_rst else [])
-        self.menu = product_menu(self.input_names, {"inp": (0, 1), "rst": (0, 1)})
+        self.menu = product_menu(self.input_names, {"inp": (0, 1), "rst": rst_domain(rst_active_low)})
         self.outputs = ["o"]
 
     def init(self):
@@ -383,7 +415,7 @@ class DebounceModel:
 
     def step(self, st, inp):
         cnt, val = st
-        if self.has_rst and inp[1]:
+        if self.has_rst and inp[1] == self.rst_on:
             return [((self.period // 2, self.initial), (self.initial,))]
         if inp[0]:
             if cnt == self.period:
